@@ -1256,7 +1256,7 @@ func explainDescribeQuery(sb *strings.Builder, n *ast.DescribeQuery, indent stri
 		}
 		fmt.Fprintf(sb, "%sDescribeQuery (children %d)\n", indent, children)
 		fmt.Fprintf(sb, "%s TableExpression (children 1)\n", indent)
-		explainFunctionCall(sb, n.TableFunction, indent+"  ", 2)
+		explainFunctionCall(sb, n.TableFunction, indent+"  ", depth+2)
 		if n.Format != "" {
 			fmt.Fprintf(sb, "%s Identifier %s\n", indent, n.Format)
 		}
@@ -1640,7 +1640,7 @@ func explainBackupQuery(sb *strings.Builder, n *ast.BackupQuery, indent string) 
 			fmt.Fprintf(sb, "%s Function %s (children 1)\n", indent, n.Target.Name)
 			fmt.Fprintf(sb, "%s  ExpressionList (children %d)\n", indent, len(n.Target.Arguments))
 			for _, arg := range n.Target.Arguments {
-				Node(sb, arg, 3)
+				Node(sb, arg, len(indent)+3) // indent holds one space per level
 			}
 		} else {
 			fmt.Fprintf(sb, "%s Function %s\n", indent, n.Target.Name)
@@ -1680,7 +1680,7 @@ func explainRestoreQuery(sb *strings.Builder, n *ast.RestoreQuery, indent string
 			fmt.Fprintf(sb, "%s Function %s (children 1)\n", indent, n.Source.Name)
 			fmt.Fprintf(sb, "%s  ExpressionList (children %d)\n", indent, len(n.Source.Arguments))
 			for _, arg := range n.Source.Arguments {
-				Node(sb, arg, 3)
+				Node(sb, arg, len(indent)+3) // indent holds one space per level
 			}
 		} else {
 			fmt.Fprintf(sb, "%s Function %s\n", indent, n.Source.Name)
